@@ -136,3 +136,10 @@ Qed.
 Lemma strip_model rho bp bw k :
   strip_pts rho bp k = gstrip rho (bp k) /\ strip_wts rho bp bw k = dergstrip rho (bp k) * bw k.
 Proof. split; reflexivity. Qed.
+
+(* hypotheses of gstrip_deriv are satisfiable: rho = 1.1 (the default), s = 1/2 *)
+Example gstrip_hyp_sat : 1 < 11 / 10 /\ -1 < 1 / 2 < 1 /\ 1 / 100000000 < Rabs (Rabs (1 / 2) - 1 - 0).
+Proof.
+  split; [lra|]. split; [lra|]. rewrite (Rabs_right (1 / 2)) by lra.
+  replace (1 / 2 - 1 - 0) with (- (1 / 2)) by lra. rewrite Rabs_Ropp, Rabs_right by lra. lra.
+Qed.
